@@ -325,4 +325,33 @@ def Bad.sig : Bad → String
 
 def checkE (t : List TEv) : Except Bad Mon := Mon.run {} t
 
+/-! ## the lifecycle FSM (theorems: Props `C20_every_transition_in_fsm`, `C20_state_history_is_fsm_path`) -/
+
+/-- the documented lifecycle, as a relation on states (no self loops except the initial Starting → Starting) -/
+def fsmEdge : CState → CState → Bool
+  | .starting, .starting => true   -- NewCollector stored Starting; setup stores it again
+  | .starting, .running => true    -- configuration brought up
+  | .running, .closing => true     -- reload or shutdown begins
+  | .closing, .starting => true    -- reload: the retiring service is down, bring the next configuration up
+  | .closing, .closed => true      -- shutdown complete
+  | .starting, .closed => true     -- the initial configuration could not be brought up
+  | _, _ => false
+
+/-- first consecutive pair of a sequence of sampled state values (one sample per change) that is not an edge -/
+def fsmTraceBad : List CState → Option (CState × CState)
+  | a :: b :: cs => if fsmEdge a b then fsmTraceBad (b :: cs) else some (a, b)
+  | _ => none
+
+def TEv.stOf : TEv → Option CState
+  | .st c => some c
+  | _ => none
+
+/-- drop repeated consecutive samples (the harness records the state word only when it CHANGED) -/
+def dedupAdj : List CState → List CState
+  | a :: b :: r => if a = b then dedupAdj (b :: r) else a :: dedupAdj (b :: r)
+  | l => l
+
+/-- the oracle `prop fsm` of the driver: the state word as sampled along an event log, from `NewCollector`'s Starting -/
+def fsmLogBad (log : List TEv) : Option (CState × CState) := fsmTraceBad (dedupAdj (.starting :: log.filterMap TEv.stOf))
+
 end OtelVerif.C20
